@@ -14,7 +14,7 @@ from concurrent.futures import ThreadPoolExecutor
 sys.path.insert(0, os.path.join(os.path.dirname(os.path.abspath(__file__)), "..", "lib"))
 import vlib
 
-SAFE_DEPTH, SAFE_CHAIN = 1000, 3000
+SAFE_DEPTH, SAFE_SEL, SAFE_CHAIN = 1000, 3000, 3000
 
 
 def tla_set(xs):
@@ -24,14 +24,16 @@ def tla_set(xs):
 def body(c):
     if c.quick:
         depths, light, sizes, cuts, heavy, nmut, budget = [100, 1000, 10000], [100], [3000], [0, 1, 5, 10, 15, 19], ["execute", "json"], 250, 30000
+        seldepths = [50, 65, 200, 1000, 3000, 5000, 20000]
     else:
         depths, light, sizes, cuts = [100, 300, 1000, 3000, 10000, 30000], [100, 300, 1000], [1000, 10000], list(range(20))
         heavy, nmut, budget = ["execute", "json", "get", "multipart", "ws"], 6000, 120000
+        seldepths = [50, 64, 65, 100, 200, 500, 1000, 2000, 3000, 5000, 20000]
     gen_cfg = c.path("Gen_Hostile.cfg")
     with open(gen_cfg, "w") as f:
-        f.write("CONSTANT Depths = %s\nCONSTANT LightDepths = %s\nCONSTANT Sizes = %s\nCONSTANT Cuts = %s\nCONSTANT SafeDepth = %d\n"
+        f.write("CONSTANT Depths = %s\nCONSTANT SelDepths = %s\nCONSTANT LightDepths = %s\nCONSTANT Sizes = %s\nCONSTANT Cuts = %s\nCONSTANT SafeDepth = %d\nCONSTANT SafeSel = %d\n"
                 "CONSTANT SafeChain = %d\nCONSTANT HeavyTransports = %s\nCONSTANT Wide = %s\nCONSTANT Dev = {}\nINIT Init\nNEXT Next\nINVARIANT Emit\n"
-                "CONSTRAINT OnlyInit\n" % (tla_set(depths), tla_set(light), tla_set(sizes), tla_set(cuts), SAFE_DEPTH, SAFE_CHAIN, tla_set(heavy), "FALSE" if c.quick else "TRUE"))
+                "CONSTRAINT OnlyInit\n" % (tla_set(depths), tla_set(seldepths), tla_set(light), tla_set(sizes), tla_set(cuts), SAFE_DEPTH, SAFE_SEL, SAFE_CHAIN, tla_set(heavy), "FALSE" if c.quick else "TRUE"))
     # ---- M (ideal), M (today's deviations on) and G side by side: 1 + 1 + 2 workers
     # (the two model-checking runs do not gate the harness: they are joined before mode V)
     ex = ThreadPoolExecutor(3)
@@ -101,15 +103,21 @@ def body(c):
         for k in need:
             if not stats.get(k):
                 raise vlib.ToolError("vacuity: no '%s' cases" % k)
+        served = [o for o in obs if o["class"] == "nest_sel" and o["sub"] == "raised" and o["k"] <= 64 and o["pos"] != "unclosed"]
+        if not served or any(o["outcome"] != "data" for o in served):
+            raise vlib.ToolError("vacuity: nested inline fragments below the parser's limit were not served by the schema with a raised "
+                                 "limit_recursive_depth: %s" % [(o["pos"], o["k"], o["outcome"], o["detail"][:60]) for o in served if o["outcome"] != "data"][:3])
         if stats["benign"].get("data", 0) < 5:
             raise vlib.ToolError("vacuity: the harmless requests were not served (%s)" % stats["benign"])
     c.notes.append("outcomes by class: " + json.dumps({k: stats[k] for k in sorted(stats)}))
-    c.notes.append("smallest nesting depth / chain length of the grid %s that aborted the process (stack overflow on a 2 MiB thread stack): %s"
-                   % (depths, json.dumps({k: first_crash[k] for k in sorted(first_crash)})))
+    c.notes.append("smallest nesting depth / chain length of the grids %s / %s that aborted the process (stack overflow on a 2 MiB thread stack): %s"
+                   % (depths, seldepths, json.dumps({k: first_crash[k] for k in sorted(first_crash)})))
     c.cov["traces_validated_against_impl"] = len(obs)
     c.cov["exhaustive"] = False
     c.cov["rule"] = ("G: TLC enumerates hostile class x position x size x transport (forged upload markers in 5 positions; list / object / "
-                     "selection / type nesting and fragment chains of depths %s; numbers beyond 64 bits in every scalar slot; 16 malformed "
+                     "selection / type nesting and fragment chains of depths %s; selection sets nested through inline fragments "
+                     "(untyped, typed, with a directive, typed / untyped / field in turn, in operations and in fragment definitions) %s deep against the default schema "
+                     "and one with a raised limit_recursive_depth; numbers beyond 64 bits in every scalar slot; 16 malformed "
                      "strings incl. lone surrogates; undefined types; huge names and floods of size %s; every input type x every JSON kind; "
                      "29 malformed documents; 16 shapes of small fragment-spread cycles that an operation reaches x {strict, fast} validation x "
                      "{no limits, limit_directives/depth/complexity}; block strings whose lines start with U+00A0 / U+2003 / U+3000 / U+FEFF / "
@@ -119,7 +127,7 @@ def body(c):
                      "{Schema::execute, JSON body, GET string, multipart, WebSocket}; the harness adds %d seeded byte-level mutations of "
                      "valid payloads (5 transports); every case runs in a child process on a 2 MiB stack with a %d s budget; "
                      "non-trivial = every case except the harmless requests; distinct by (class, position, size, transport)"
-                     % (depths, sizes, len(cuts), nmut, budget // 1000))
+                     % (depths, seldepths, sizes, len(cuts), nmut, budget // 1000))
     shown = set()
     for o in obs:
         vd = verdicts[o["id"]][0]
@@ -129,9 +137,11 @@ def body(c):
                       "verdict": vd}, limit=7)
     c.assumptions += [
         "a case runs on a fresh thread with a 2 MiB stack (the default of std::thread and of tokio worker threads); the depth at which "
-        "recursion exhausts the stack depends on that size; SafeDepth = %d / SafeChain = %d are depths measured to fit" % (SAFE_DEPTH, SAFE_CHAIN),
-        "the deviation triggers are stated over syntactic features of the bytes sent, computed by the harness (deepest [ / { nesting "
-        "> %d, number of fragment definitions > %d); small cyclic documents and block strings carry neither" % (SAFE_DEPTH, SAFE_CHAIN),
+        "recursion exhausts the stack depends on that size; SafeDepth = %d (values, list types) / SafeSel = %d (selection sets) / "
+        "SafeChain = %d are depths measured to fit" % (SAFE_DEPTH, SAFE_SEL, SAFE_CHAIN),
+        "the deviation triggers are stated over syntactic features of the bytes sent, computed by the harness (val = deepest nesting of [ and "
+        "of { inside parentheses, sel = deepest nesting of { outside parentheses: val / %d + sel / %d > 1; number of fragment definitions > %d); "
+        "small cyclic documents and block strings carry neither" % (SAFE_DEPTH, SAFE_SEL, SAFE_CHAIN),
         "executable documents have no descriptions in this grammar, so block strings are placed in values only",
         "the byte-level mutation corpus is generated by the seeded harness; TLA+ only classifies its outcomes (DESIGN.md section 6)",
         "WebSocket sessions run against the real schema as executor, polled by hand until quiescent; HTTP bodies are decoded with "
